@@ -140,6 +140,10 @@ def build_pool(seed, tier):
         elif r < 0.62:
             d, s = pick_stmt() if rng.random() < 0.7 else rng.choice(corpus.FAILING)
             calls.append({"op": "parse", "sql": s, "read": d, "error_level": rng.choice([None, "IMMEDIATE", "RAISE", "WARN", "IGNORE"])})
+        elif r < 0.70:
+            # qualification / star expansion of arbitrary corpus statements, no schema (column sets iterate in many places)
+            d, s = pick_stmt() if rng.random() < 0.6 else rng.choice(corpus.GENERAL)
+            calls.append({"op": "qualify_raw", "sql": s, "read": d})
         else:
             src = rng.random()
             if src < 0.12:
@@ -167,7 +171,33 @@ def build_pool(seed, tier):
             elif k < 0.9:
                 calls.append({"op": "rule", "rule": rng.choice(RULES), "sql": s, "read": d, "schema": sch})
             else:
-                calls.append({"op": "lineage", "sql": s, "read": d, "schema": sch, "column": rng.choice(["a", "c", "n", "m", "a1"])})
+                import re
+
+                aliases = re.findall(r" AS ([a-z_][a-z0-9_]*)\b", s) or ["a"]
+                calls.append({"op": "lineage", "sql": s, "read": d, "schema": sch, "column": rng.choice(aliases)})
+    # Systematic part: every hand-written statement gets at least one call (op rotating with the pool seed), so that no
+    # needle statement depends on being drawn by chance; lineage of every aliased projection of the schema queries.
+    import re
+
+    special = corpus.GENERAL + corpus.STATEFUL + [(None, q) for q in corpus.SCHEMA_QUERIES]
+    rot = rng.randrange(4)
+    for i, (d, q) in enumerate(special):
+        if q in set(x for _, x in corpus.FAILING):
+            continue
+        kind = (i + rot) % 3 + 1
+        calls.append({"op": "qualify_raw", "sql": q, "read": d})
+        if kind == 1:
+            calls.append({"op": "transpile", "sql": q, "read": d, "write": pick_write()})
+        elif kind == 2:
+            calls.append({"op": "generate", "sql": q, "read": d, "write": pick_write(), "opts": dict(rng.choice(hot_opts))})
+        else:
+            calls.append({"op": "parse", "sql": q, "read": d, "error_level": None})
+    for q in corpus.SCHEMA_QUERIES:
+        for al in re.findall(r" AS ([a-z_][a-z0-9_]*)\b", q)[:2]:
+            if " FROM (" not in q and "WITH " not in q:
+                calls.append({"op": "lineage", "sql": q, "read": None, "schema": "xyz", "column": al})
+        calls.append({"op": "optimize" if rng.random() < 0.5 else "qualify", "sql": q, "read": None, "schema": "xyz"})
+
     # Focus groups: several calls that all go to ONE component configuration (same generator class + options, same parser
     # + error level, same tokenizer), drawn from inputs that touch per-instance state. A "focus" history replays a group on
     # one reused instance, which is what makes forgotten resets observable (second call differs from a fresh instance).
@@ -272,7 +302,15 @@ def prepare(prop, tier, seed):
         cold_tables(tp)
     finally:
         tp.close()
-    return {"reference_calls": len(calls), "reference_executions": 2 * len(calls), "cold_base_tables": len(_COLD.get("tables", {}))}
+    # every pool call whose two cold references (hash seeds 0 and 4242) disagree is judged as a 1-step history of its own,
+    # whether or not a generated history happens to draw it
+    extra = []
+    for c in calls:
+        a, b = _REFS.get(call_sig(c), (None, None))
+        if a != b and a is not None and a[0] != "harness" and b[0] != "harness":
+            extra.append({"engine": "histsim", "config": {"hashseed": REF_SEEDS[1], "faults": []}, "steps": [dict(c, comp="fresh")]})
+    return {"reference_calls": len(calls), "reference_executions": 2 * len(calls), "cold_base_tables": len(_COLD.get("tables", {})),
+            "calls_whose_cold_references_disagree": len(extra), "extra_records": extra[:40]}
 
 
 def cold_tables(tp):
